@@ -43,7 +43,9 @@ def validate(wdname, trace_module, traces, modules, invariants=("Ok", "TermOut",
         raise MachineryError("trace validation %s: %d PrintT values could not be parsed, e.g. %s" % (wdname, res.unparsed_prints, res.unparsed_text))
     # structure-only traces that were accepted must have exported their term
     for t in acc:
-        if traces[t - 1][0].get("num") is False and t not in terms:
+        tr = traces[t - 1]
+        first = tr[0] if isinstance(tr, (list, tuple)) and tr else None      # LwCircuitTrace traces are event lists; LwGatesTrace records are not
+        if isinstance(first, dict) and first.get("num") is False and t not in terms:
             raise MachineryError("trace validation %s: accepted structure-only trace %d exported no TERM" % (wdname, t))
     # every trace must have a verdict
     for t in range(1, len(traces) + 1):
